@@ -414,11 +414,38 @@ def modules_follow_the_derivative(ctx: Ctx) -> None:
         for builder in ("BlackScholes", "from_derivative"):
             d = make_derivative(p, True, 1.1)
             m = BlackScholes(d) if builder == "BlackScholes" else classes()[p][1].from_derivative(d)
+            def resimulate_with(sigma):
+                d.ul().sigma = sigma
+                torch.manual_seed(4)
+                d.simulate(n_paths=3)                                   # the same shape as before
+
+            def raw_state():
+                # the derivative's state from the RAW series and the public attributes, not through the derivative's own methods
+                ul = d.ul()
+                spot = ul.spot
+                lm = (spot / d.strike).log()
+                n = spot.size(1)
+                ttm = ((n - 1 - torch.arange(n, dtype=spot.dtype)) * ul.dt).expand_as(spot)
+                return {"log_moneyness": lm, "max_log_moneyness": lm.cummax(dim=-1).values, "time_to_maturity": ttm, "volatility": torch.full_like(spot, ul.sigma)}
             steps = [("first use", lambda: None), ("strike lowered to 0.7", lambda: setattr(d, "strike", 0.7)), ("strike raised to 1.6", lambda: setattr(d, "strike", 1.6)),
-                     ("series replaced", lambda: d.ul().register_buffer("spot", d.ul().spot.flip(0) * 1.125)), ("strike back to 1.1", lambda: setattr(d, "strike", 1.1))]
+                     ("series replaced", lambda: d.ul().register_buffer("spot", d.ul().spot.flip(0) * 1.125)), ("strike back to 1.1", lambda: setattr(d, "strike", 1.1)),
+                     ("volatility parameter changed to 0.5 and a new simulation of the same shape", lambda: resimulate_with(0.5)),
+                     ("volatility parameter changed to 0.125 and a new simulation of the same shape", lambda: resimulate_with(0.125))]
             for label, act in steps:
                 act()
                 st = {k: v for k, v in state_of(d).items() if k in m.inputs()}
+                raw = {k: v for k, v in raw_state().items() if k in m.inputs()}
+                for g in ("price", "delta"):
+                    try:
+                        got = getattr(m, g)()
+                        want = getattr(m, g)(**{k: v.clone() for k, v in raw.items()})
+                    except Exception as e:
+                        continue                                        # (reported by the loop below)
+                    ctx.count(n=got.numel())
+                    same = ((got - want).abs() <= 1e-12 * (1 + want.abs())) | (got.isnan() & want.isnan())
+                    if got.shape != want.shape or not bool(same.all()):
+                        ctx.violation(f"module-state:{p}:{g}:raw", f"{type(m).__name__} ({builder}) .{g}() without arguments is not the value at the state read off the underlier's raw series and "
+                                      f"the contract's public attributes ({label})", {"step": label, "without_arguments": got.flatten().tolist()[:9], "at_raw_state": want.flatten().tolist()[:9]})
                 for g in ("price", "delta"):
                     try:
                         got = getattr(m, g)()
